@@ -61,6 +61,28 @@ def plan(seed, n_steps, store_kind):
     return {"seed": seed, "store": store_kind, "events": events, "paths": paths, "call": call}
 
 
+def plan_interleaved(seed, store_kind):
+    """A long-lived process evaluates, ANOTHER process evaluates an edited copy of the code on the same store, the first
+    process evaluates its (unchanged) code again: every path must serve what the latest evaluation kept."""
+    rng = random.Random(seed)
+    prog = P.gen_program(rng)
+    call = P.root_call(prog, rng)
+    paths = sorted(set(all_paths(prog) + ([call["path"]] if call.get("path") else [])))
+    edits = [e for e in P.edit_catalogue(prog, rng) if e[0] in ("body", "var", "literal")]
+    kind, info, p2 = rng.choice(edits)
+    p2 = copy.deepcopy(p2)
+
+    def probes():
+        out = [("restart",)]
+        for p in paths:
+            out.append(("act", {"a": "load", "path": p}))
+            out.append(("act", {"a": "rawfile", "path": p}))
+        return out
+    events = [("prog", prog), ("act", call), ("act", {"a": "subprocess", "prog": p2, "actions": [call]}), ("act", call)] + probes()
+    events += [("prog", prog), ("act", call), ("act", {"a": "subprocess", "prog": p2, "actions": [call]})] + probes()
+    return {"seed": seed, "store": store_kind, "events": events, "paths": paths, "call": call, "interleaved": True}
+
+
 def run_one(pl):
     try:
         return hist.run_history(pl["events"], store_kind=pl["store"])
@@ -72,12 +94,33 @@ def run(rep, tier, seed, proof_ok):
     n = 9 if tier == "quick" and proof_ok else 72
     n_steps = 2 if tier == "quick" else 4
     rep.rule = (f"{n} random pipelines (kept paths of 1..3 segments with shared directories) x edit histories of {n_steps} steps x store kinds "
-                "{local, local+object-cache, memory}; after every evaluation each path kept so far is loaded through dds.load from a "
+                "{local, local+object-cache, memory} (+ histories in which another process evaluates an edited copy of the code on the same "
+                "store between two evaluations of a long-lived process); after every evaluation each path kept so far is loaded through dds.load from a "
                 "fresh process (same process for the memory store) and, for the local store, read from the file under the data "
                 "directory; compared with the Coq model's store state and with the dds-free reference (value most recently kept); "
                 "distinct = distinct (history, probe); non-trivial = probe of a path that has been committed")
     kinds = ["local", "local+lru", "memory"]
     plans = [plan(seed * 1000 + i, n_steps, kinds[i % 3]) for i in range(n)]
+    plans += [plan_interleaved(seed * 1000 + 500 + i, ["local+lru", "local"][i % 2]) for i in range(4 if tier == "quick" and proof_ok else 24)]
+    # minimised past failures first
+    import glob
+    import os
+    corpus_plans = []
+    for fn in sorted(glob.glob(os.path.join(C.VERIF, "corpus", "C04", "*.json"))):
+        c = json.load(open(fn))
+        evs = []
+        for e in c["events"]:
+            if e[0] == "prog":
+                pr = e[1]
+                pr["root"] = tuple(pr["root"])
+                for m in pr["modules"].values():
+                    for f in m["funcs"]:
+                        for st in f["stmts"]:
+                            if "callee" in st:
+                                st["callee"] = tuple(st["callee"])
+            evs.append(tuple(e))
+        corpus_plans.append({"seed": "corpus:" + c["name"], "store": c["store"], "events": evs, "paths": c["paths"], "call": c["call"]})
+    plans = corpus_plans + plans
     with cf.ThreadPoolExecutor(max_workers=C.NPROC) as ex:
         results = list(ex.map(run_one, plans))
     nprobe = {"load": 0, "rawfile": 0}
